@@ -29,10 +29,9 @@ class Env(object):
         out = os.path.join(os.path.dirname(here), 'out')
         self.tmp = tmp = tempfile.mkdtemp(prefix='pyvc_standin_', dir=out if os.path.isdir(out) else None)
         self.saved_env = os.environ.get('XMLSEC1_STANDIN_KEYS')
-        self.binary = binary = os.path.join(tmp, 'xmlsec1')
-        with open(binary, 'w') as f:
-            f.write('#!/bin/sh\nexec "%s" -S -E "%s" "$@"\n' % (sys.executable, os.path.join(here, 'xmlsec1_standin.py')))
-        os.chmod(binary, os.stat(binary).st_mode | stat.S_IXUSR)
+        self.binary = binary = os.path.join(here, 'xmlsec1')       # committed wrapper script: runs xmlsec1_standin.py
+        self.saved_py = os.environ.get('XMLSEC1_STANDIN_PYTHON')
+        os.environ['XMLSEC1_STANDIN_PYTHON'] = sys.executable
         self.key_table = dict((os.path.join(keys, k), tool.cert_identity(os.path.join(keys, c))) for k, c in PAIRS.values())
         os.environ['XMLSEC1_STANDIN_KEYS'] = json.dumps(self.key_table)
 
@@ -77,6 +76,10 @@ class Env(object):
             self.idp.ident.close()
         except Exception:
             pass
+        if self.saved_py is None:
+            os.environ.pop('XMLSEC1_STANDIN_PYTHON', None)
+        else:
+            os.environ['XMLSEC1_STANDIN_PYTHON'] = self.saved_py
         if self.saved_env is None:
             os.environ.pop('XMLSEC1_STANDIN_KEYS', None)
         else:
